@@ -104,14 +104,14 @@ Qed.
 End Ann.
 
 (* ---------- types ---------- *)
-(* the exclusion for types: a path type whose first segment is one of the type words (the parser reads "list", "set",
-   "map" as type names when no '<' follows; a base-type word can only be read as a path when a non-ASCII letter follows it) *)
+(* the exclusion for types: a path type whose first segment is a base-type word (such a word can only be read as a path
+   when a non-ASCII letter follows it; "list", "set", "map" are read as type names when no '<' follows and are well-formed) *)
 Fixpoint heads_ok_ty (t : cty) : bool :=
   match t with
   | CTBase _ => true
   | CTList _ _ inner _ _ | CTSet _ _ _ inner _ => heads_ok_type inner
   | CTMap _ _ _ key _ _ _ value _ => heads_ok_type key && heads_ok_type value
-  | CTPath p => negb (bytes_in (cp_head p) type_words)
+  | CTPath p => negb (bytes_in (cp_head p) base_words)
   end
 with heads_ok_type (t : ctype) : bool := match t with CType t _ => heads_ok_ty t end.
 
